@@ -7,16 +7,18 @@
  * it last ran on).
  */
 #include "hcommon.h"
-typedef struct { int nth, mode[2], mask[2], W, K; } prog_t;
+typedef struct { int nth, mode[2], mask[2], W, K, pf; } prog_t;
 #define MAXP 400
 static prog_t P[2][MAXP]; static int NP[2];
-static void add(int tier, int nth, int m0, int k0, int m1, int k1, int W, int K) { if (NP[tier] < MAXP) { prog_t * p = &P[tier][NP[tier]++]; p->nth = nth; p->mode[0] = m0; p->mask[0] = k0; p->mode[1] = m1; p->mask[1] = k1; p->W = W; p->K = K; } }
+static void add(int tier, int nth, int m0, int k0, int m1, int k1, int W, int K) { if (NP[tier] < MAXP) { prog_t * p = &P[tier][NP[tier]++]; p->nth = nth; p->mode[0] = m0; p->mask[0] = k0; p->mode[1] = m1; p->mask[1] = k1; p->W = W; p->K = K; p->pf = 0; } }
 static void build(void) {
   static int built; if (built) return; built = 1;
   for (int tier = 0; tier < 2; tier++) for (int W = 1; W <= 2; W++) {
     int K = tier ? 3 : 2;
     for (int m = 0; m < 3; m++) for (int mask = 1; mask < 16; mask += (tier ? 1 : 2)) add(tier, 1, m, mask, 0, 0, W, tier ? ((mask & 9) ? K : 1) : (((mask == 1 || mask == 9 || mask == 15) && m == 0 && W == 2) ? 2 : 1));
     for (int m = 0; m < 3; m++) { add(tier, 2, m, 0xF, (m + 1) % 3, 0x9, W, tier ? 2 : 1); add(tier, 2, m, 0x1, m, 0x8, W, tier ? 2 : 1); if (tier) add(tier, 2, m, 0x5, (m + 2) % 3, 0xD, W, 2); }
+    /* the same for threads started parent-first (through an attribute object): pf bit i = thread i */
+    for (int m = 0; m < 3; m++) { add(tier, 1, m, 0x5, 0, 0, W, tier ? 2 : 1); P[tier][NP[tier] - 1].pf = 1; add(tier, 2, m, 0x7, (m + 1) % 3, 0x5, W, 1); P[tier][NP[tier] - 1].pf = 2 + (m & 1); }
   }
 }
 static int nprogs(int tier) { build(); return NP[tier]; }
@@ -24,7 +26,7 @@ static void config(int tier, int prog, int * W, int * K) { build(); *W = P[tier]
 static const char * const mname[] = { "return", "myth_exit", "cancel+testcancel" };
 static void describe(int tier, int prog, char * b, size_t n) {
   build(); prog_t * p = &P[tier][prog]; int o = snprintf(b, n, "thread exit with yielding / blocking destructors:");
-  for (int i = 0; i < p->nth; i++) o += snprintf(b + o, n - o, " t%d ends by %s holding keys mask 0x%x", i, mname[p->mode[i]], p->mask[i]);
+  for (int i = 0; i < p->nth; i++) o += snprintf(b + o, n - o, " t%d%s ends by %s holding keys mask 0x%x", i, (p->pf >> i & 1) ? " (parent-first)" : "", mname[p->mode[i]], p->mask[i]);
 }
 static prog_t * cur; static myth_key_t key[4]; static myth_mutex_t dm;
 static volatile int other_key_wrong; static volatile int calls[4][2], wrong, holder_go, holder_done, in_dtor_migrated;
@@ -53,7 +55,7 @@ static void run(int tier, int prog) {
   int need_holder = 0; for (int i = 0; i < cur->nth; i++) if (cur->mask[i] & 8) need_holder = 1;
   myth_thread_t h = 0, th[2];
   if (need_holder) { h = myth_create(holder, 0); while (!holder_go && !holder_done) mv_wait_until_changed(&holder_go, sizeof(int)); }
-  for (int i = 0; i < cur->nth; i++) th[i] = myth_create(body, (void *)(long)i);
+  for (int i = 0; i < cur->nth; i++) { int rc = h_spawn((cur->pf >> i & 1) ? V_EX_PARENT_FIRST : V_CREATE, &th[i], body, (void *)(long)i); MV_CHECK(rc == 0, "creation returned %d", rc); }
   for (int i = 0; i < cur->nth; i++) {
     void * r = 0; int rc = myth_join(th[i], &r); MV_CHECK(rc == 0, "join returned %d", rc);
     if (cur->mode[i] != 2) MV_CHECK((long)r == 50 + i, "join of t%d delivered %ld", i, (long)r);
